@@ -163,7 +163,7 @@ def check_case(ctx, case):
 
 
 def run(ctx):
-    for k in range(ctx.n(30, 200)):
+    for k in range(ctx.n(30, 400)):
         check_case(ctx, krig.gen_case(ctx.rng, nobs=(8, 36) if ctx.tier == 'quick' else (8, 80)))
     ctx.lean.flush()
 
